@@ -1274,24 +1274,8 @@ fn classify(rep: &mut Report, o: &Outcome, u: Url, pubs: &[(Dec, usize)], input:
             let want_ident = if *lang == Lang::C { text.ident } else { 0 };
             if !text_stale && t.ident != want_ident {
                 if *lang == Lang::C && t.ident == 0 {
-                    // F17f: the handler that first published the check without identifiers is a didChange that was
-                    // outdated when it took the document lock (a didChange with a larger version had finished) and
-                    // some dictionary command had finished before it did
-                    let h = origin(&|d| matches!(d, Dec::T(x) if x.ident == 0 && x.text == t.text)).unwrap();
-                    let outdated = match &o.handlers[h] {
-                        (Op::Change(_, _, vh), _, Some(done_h), _) => o.handlers.iter().find_map(|(op2, _, done2, _)| match op2 {
-                            Op::Change(u2, _, v2) if *u2 == u && v2 > vh && done2.map(|d| d < *done_h).unwrap_or(false) => Some((*vh, *v2)),
-                            _ => None,
-                        })
-                        .filter(|_| o.handlers.iter().any(|(op2, adm2, _, _)| (matches!(op2, Op::AddUser(..)) || matches!(op2, Op::AddFile(_, u2) if *u2 == u)) && adm2 < done_h)),
-                        _ => None,
-                    };
-                    match outdated {
-                        Some((vh, v2)) => causes.push(("ident-dropped".into(), format!(
-                            "{}: code document re-checked without its identifier dictionary (identifier set {} of the text is reported as misspelt) by an outdated didChange (message {h}, version {vh} < {v2}) that arrived after the dictionary files had changed: dict / ident_dict / linter reset, early return before the identifiers are merged again",
-                            u.tok(), want_ident))),
-                        None => causes.push(("ident-dropped".into(), format!("{}: code document re-checked without its identifier dictionary (identifier set {} of the text is reported as misspelt)", u.tok(), want_ident))),
-                    }
+                    // (F17e and F17f are repaired: a source file re-checked without its identifiers is never known)
+                    causes.push(("ident-dropped".into(), format!("{}: code document re-checked without its identifier dictionary (identifier set {} of the text is reported as misspelt)", u.tok(), want_ident)));
                 } else {
                     unexplained(&mut causes, format!("{}: identifier dictionary {} instead of {}", u.tok(), t.ident, want_ident));
                 }
